@@ -969,6 +969,9 @@ func storeBubble(plan *Plan, res *Result) []porcupine.Operation {
 								w.closed = true
 								return
 							}
+							if w.cancelled {
+								return // see the summary: deliveries after the cancellation are not observations
+							}
 							if r.typ == "DELETED" {
 								return
 							}
@@ -1181,6 +1184,13 @@ func storeBubble(plan *Plan, res *Result) []porcupine.Operation {
 	}
 	fmt.Fprintf(&sb, "| ops=%d watches=%d", len(hist), len(allWatches))
 	for _, w := range allWatches {
+		if w.cancelled {
+			// what a cancelled watch was still shown is decided inside the store by a Go select between "send the event" and
+			// "context done" when a replay read is answered after the cancellation - real runtime randomness that no oracle
+			// looks at (found by the determinism self-test after the +idwatch sub-profile made cancels frequent)
+			fmt.Fprintf(&sb, " | c%d/w%d key=%q replay=%v stopped=%v cancelled=true", w.client, w.ord, w.key, w.replay, w.stopped)
+			continue
+		}
 		fmt.Fprintf(&sb, " | c%d/w%d key=%q replay=%v start=%d stopped=%v cancelled=%v count=%d last=", w.client, w.ord, w.key, w.replay, w.startStep, w.stopped, w.cancelled, w.count)
 		ks := make([]string, 0, len(w.last))
 		for k2 := range w.last {
